@@ -160,6 +160,29 @@ def gen():
     if not m:
         raise F.FactError("write_u32_array length guard not recognised")
     out.append("Definition u32_array_len_guard : guard := mkG CastNone %s (OConst %s).\n" % (G.CMP[m.group(2)], m.group(3)))
+    # ---- index.rs: the id lists of the word-id table go through write_u32_array (and with them its length guard); a table
+    #      written any other way (count narrowed by hand, ids pushed directly) is reported as unchecked, not as a broken fact
+    rel = BUILD + "index.rs"
+    t = no_tests(F.strip_comments(F.src(rel)))
+    wb = "".join(("\x01" * len(seg)) if kind == "string" else seg for kind, seg in F._segments(F.fn_body(t, "build_word_id_table", rel)))
+    through = False
+    mres = re.search(r"let\s+mut\s+(\w+)\s*=\s*Vec::(?:with_capacity\(|new\(\))", wb)
+    if mres:
+        res = mres.group(1)
+        calls = [c for c in re.finditer(r"\bwrite_u32_array\(", wb)]
+        other = re.findall(r"\b%s\.(?!len\(\)|capacity\(\))\w+\(" % res, wb) + re.findall(r"&mut\s+%s\b(?!\s*,\s*&\s*[\w.]+\))" % res, wb)
+        if len(calls) == 1 and not other and re.search(r"Ok\(%s\)\s*$" % res, wb.strip()):
+            c = calls[0]
+            e = F._close(wb, c.end() - 1)
+            args = wb[c.end():e - 1] if e > 0 else ""
+            rest = wb[e:] if e > 0 else ""
+            mm = re.match(r"\s*\.map_err\(", rest)
+            if mm:
+                e2 = F._close(rest, mm.end() - 1)
+                rest = rest[e2:] if e2 > 0 else "!"
+            if re.fullmatch(r"&mut\s+%s,\s*&\s*[\w.]+" % res, args.strip()) and re.match(r"\s*\?\s*;", rest):
+                through = True
+    out.append("Definition word_id_table_through_write_u32_array : bool := %s.\n" % ("true" if through else "false"))
     # ---- conn.rs
     rel = BUILD + "conn.rs"
     t = no_tests(F.strip_comments(F.src(rel)))
